@@ -213,7 +213,7 @@ func handlePanic(t *T, recovered any) {
 
 	err, isError := recovered.(error)
 	switch {
-	case isError && errors.Is(err, errFailNow):
+	case isError && err == errFailNow: //nolint:errorlint // the sentinel FailNow panics with, not any error that claims to match it
 		return
 	case isError:
 		stack := debug.Stack()
